@@ -16,8 +16,41 @@ META = {
 }
 
 
+def cli_state(s, i, tmpdir):
+    from ..canon import Abs
+    rng = s.rng('cli', i)
+    pool = gen.text_pool('cr' if i % 2 else 'hostile')
+    ids = gen.Ids('W%d.' % i)
+    ro_txt = gen.rand_ro(rng, n_stories=rng.randint(1, 4), pool=pool, message_id=1)
+    state = Abs(ro_txt)
+    docs = [ro_txt]
+    for k in range(rng.randint(1, 6)):
+        docs.append(gen.rand_message(rng, state, K.weighted_kinds(rng, K.kind_weights(1, 1, 1.0, 0)), 10 + k, ids, pool=pool))
+    rc, reread, lib, argv = K.cli_roundtrip(s, docs, tmpdir, 'c14-%d' % i)
+    s.evaluations += 1
+    s.note_sig(('cli-roundtrip', 'cr' if i % 2 else 'hostile', type(reread).__name__, rc))
+    if lib is None:
+        return
+    wit = {'type': 'collection', 'docs': docs, 'strict': False}
+    if isinstance(reread, Exception) or type(reread).__name__ != 'RunningOrder':
+        s.custom_violation('state-written-by-cli-does-not-read-back', {'got': type(reread).__name__,
+                                                                       'msg': str(reread)[:150]}, wit, status='cli')
+    elif str(reread) != str(lib):
+        s.custom_violation('state-written-by-cli-reads-back-differently',
+                           {'has_cr': '&#13;' in str(lib)}, wit, status='cli')
+
+
 def run(s):
     K.suite_workload(s)
+    import shutil
+    import tempfile
+    tmpdir = tempfile.mkdtemp(prefix='verif-c14-')
+    try:
+        for i in range(60 if s.tier == 'quick' else 2500):
+            if s.mine(i):
+                cli_state(s, i, tmpdir)
+    finally:
+        shutil.rmtree(tmpdir, ignore_errors=True)
     K.fixtures_workload(s)
     K.pair_histories(s, text='hostile')
     q = s.tier == 'quick'
